@@ -368,9 +368,9 @@ class _RState:
             f()
             return None
         except Exception as e:  # noqa
-            return e
+            return e.with_traceback(None)
         except Interrupt as e:
-            return e
+            return e.with_traceback(None)
 
     # ---- ops
     def step(self, op):
@@ -830,7 +830,7 @@ class _RState:
                 raise Viol(f'{who}.getitem', f'raises:{type(e).__name__}', f'k={k} n={n} {str(e)[:200]}')
             if not valid:
                 raise Viol(f'{who}.getitem', 'no_indexerror_out_of_range', f'k={k} n={n}')
-            if type(got) is not np.ndarray:
+            if not isinstance(got, np.ndarray):
                 raise Viol(f'{who}.getitem', f'type:{type(got).__name__}', '')
             ok, why = D.arr_equal(got, L[k])
             if not ok:
